@@ -115,6 +115,10 @@ def ev_checked(node, x, p, t, V, jitter=None):
     v = ref.ev([k] + sub, x, p, t, V)
     if not math.isfinite(v) or abs(v) > 1e150:
         raise ref.Undefined("range")
+    # underflow is a representable-range effect too: sympy re-arranges the tree, and an intermediate of the re-arranged form may
+    # overflow where the written form underflows to 0 (e.g. (s/(k*s^15))^565902); such points are not in the finite domain
+    if (v != 0.0 and abs(v) < 1e-150) or (v == 0.0 and k in ("*", "/", "^", "exp") and all(a != 0.0 for a in args[:1])):
+        raise ref.Undefined("underflow")
     return v
 
 
